@@ -118,6 +118,8 @@ struct FnOverlay {
     drop_stmts: Vec<String>,
     folds: BTreeMap<String, String>,
     shapes: HashMap<String, Vec<String>>,
+    /// `@params a b c`: the parameter names the contract is written over (positional, receiver excluded)
+    params: Vec<String>,
 }
 #[derive(Debug)]
 enum Directive {
@@ -229,6 +231,10 @@ fn parse_vspec(path: &str) -> (String, Vec<Directive>) {
                     match d {
                         "@ret" => {
                             ov.ret = Some(rest.to_string());
+                            i += 1;
+                        }
+                        "@params" => {
+                            ov.params = rest.split_whitespace().map(|s| s.to_string()).collect();
                             i += 1;
                         }
                         "@spec" => {
@@ -1974,6 +1980,8 @@ fn extract_fn(src: &Src, file: &syn::File, selector: &str, ov: &FnOverlay, map: 
     head.push_str(&generics_text(src, &sig.generics, &mut sigrules));
     head.push('(');
     let mut first = true;
+    let mut typed_idx = 0usize;
+    let mut param_renames: Vec<String> = Vec::new();
     for a in sig.inputs.iter() {
         match a {
             syn::FnArg::Receiver(r) => {
@@ -2000,7 +2008,18 @@ fn extract_fn(src: &Src, file: &syn::File, selector: &str, ov: &FnOverlay, map: 
                 for e in tw.edits.iter() {
                     sigrules.push((e.rule, src.line_of(e.start)));
                 }
-                let pat_txt = src.slice(pt.pat.span()).to_string();
+                let mut pat_txt = src.slice(pt.pat.span()).to_string();
+                // a renamed parameter (same position, same type) is alpha-renamed back to the name the contract uses:
+                //   fn f(new_name: T) { BODY }   ->   fn f(contract_name: T) { let new_name = contract_name; BODY }
+                if let (Some(want), syn::Pat::Ident(pi)) = (ov.params.get(typed_idx), &*pt.pat) {
+                    let have = pi.ident.to_string();
+                    if *want != have && pi.by_ref.is_none() && pi.subpat.is_none() {
+                        param_renames.push(format!("let {}{} = {};", if pi.mutability.is_some() { "mut " } else { "" }, have, want));
+                        pat_txt = want.clone();
+                        sigrules.push(("R4", src.line_of(src.off(pt.span().start()))));
+                    }
+                }
+                typed_idx += 1;
                 head.push_str(&format!("{}: {}", pat_txt, tytxt));
                 let self_is_f64 = sel.imp.map(|im| norm(src.slice(im.self_ty.span())) == "f64").unwrap_or(false);
                 let kt = if self_is_f64 { tytxt.replace("Self", "f64") } else { tytxt.clone() };
@@ -2009,6 +2028,13 @@ fn extract_fn(src: &Src, file: &syn::File, selector: &str, ov: &FnOverlay, map: 
         }
     }
     head.push(')');
+    if std::env::var("MTX_DUMP_PARAMS").is_ok() {
+        let names: Vec<String> = sig.inputs.iter().filter_map(|a| match a {
+            syn::FnArg::Typed(pt) if has_cfg_log(&pt.attrs) != Some(true) => Some(match &*pt.pat { syn::Pat::Ident(pi) => pi.ident.to_string(), _ => "_".to_string() }),
+            _ => None,
+        }).collect();
+        eprintln!("MTX-PARAMS\t{}\t{}", selector, names.join(" "));
+    }
     if let syn::ReturnType::Type(_, ty) = &sig.output {
         let mut tw = Walker { src, ov, edits: Vec::new(), depth: 0, loops: 0, closures: 0, ifs: 0, matches: 0, folds: 0, block_stmts: HashMap::new(), shapes_seen: vec![], realigned: vec![], block_alias: HashMap::new(), ctx: vec![], env: vec![HashMap::new()], used: HashSet::new(), cut_defs: vec![], cut_info: vec![], r2: true };
         tw.walk_type(ty);
@@ -2156,7 +2182,11 @@ fn extract_fn(src: &Src, file: &syn::File, selector: &str, ov: &FnOverlay, map: 
     }
     let (bs, be) = src.range(sel.block.span());
     let mut edits = std::mem::take(&mut w.edits);
-    let (body, linemap) = apply(src, bs, be, &mut edits);
+    let (mut body, linemap) = apply(src, bs, be, &mut edits);
+    if !param_renames.is_empty() {
+        // on the line of the opening brace, so that the line map is unchanged
+        body = body.replacen('{', &format!("{{ {} ", param_renames.join(" ")), 1);
+    }
     // ---- wrap into impl if needed ------------------------------------------------------------------
     let mut text = String::new();
     let mut pre_lines = 0usize;
